@@ -2,7 +2,7 @@
 from common import *
 import scripts
 
-THEOREMS = []
+THEOREMS = ['source_independence', 'stingy_conforming', 'chunked_conforming', 'generic_read_independent', 'skip_all_independent', 'take_int_independent']
 RULE = ("every generated (mode, input, script) case — generic reads, optional/tag-selective reads, skips, captures, typed readers for all "
         "value types, on well-formed and mutated inputs — is executed over SliceSource, BytesSource (by &mut and by value), Constructed::decode, "
         "an OCTET STRING used as the source (primitive and segmented into 1/3/1000-octet pieces), and contract-asserting streaming sources that "
@@ -63,5 +63,5 @@ def nontrivial(req, ans):
     return ans.startswith("ok") and req.split(" ")[2] == "slice"
 
 LEVEL = "proof"
-LEVEL_TEXT = "see THEOREMS"
-LEVEL_NOTE = ""
+LEVEL_TEXT = "Lean 4 theorem by induction over programs (run_sim, Lemmas/Stream.lean): for every capture-free routine, input, limit and EVERY grant policy obeying the Source contract, the run over the streaming source yields the same value / the same rejection and the same remaining input as the run over a slice, and never looks at, extracts or advances over ungranted octets (source_independence); instantiated for value-by-value reading, skip_all and all fixed-width INTEGER readers; the library model's routines are proved capture-free in Lemmas/NoCap.lean. Correspondence: every case over 19 real Source implementations incl. contract-asserting stingy/chunked/over-granting ones and OctetString as a source."
+LEVEL_NOTE = "Trusted: Lean 4.33 kernel; axioms propext, Classical.choice, Quot.sound only; the hand-written model (lean/Bcder/Model) tied to /repo on every run by differential correspondence (tools/check.py, harness/, lean/Driver.lean); reference definitions lean/Bcder/Spec. PARTIAL: CaptureSource frames are not modelled in the stream layer, so routines that capture (Constructed::capture*, constructed OCTET STRING decoding) are covered by the correspondence runs only. The hypothesis 'the slice run does not panic' is discharged by C01. OctetStringSource conformance is exercised, not proved."
